@@ -188,6 +188,17 @@ def directed_tail(st0, ops, seed, k=3):
         o, d, n = rnd.choice(cands)
         tail.append({"op": "add_sig_uses", "mod": o, "dep": d, "name": n, "seed": rnd.randrange(2**30)})
         pairs = [(d, n)] + [p for p in pairs if p != (d, n)][: k - 1]
+    # a generic class's type variable gains an upper bound and loses it again while an importer spells the class with an
+    # explicit type argument inside overloaded functions/methods (reached only as propagated targets: their file is unchanged)
+    bc = sorted((o, d) for o, om in st["mods"].items() for d, style in om["imports"].items() if style in ("import", "from", "func") and d in st["mods"] and not om.get("stub") and not st["mods"][d].get("stub"))
+    if bc:
+        o, d = rnd.choice(bc)
+        pre = [{"op": "ensure_kind", "mod": d, "kind": "box", "seed": rnd.randrange(2**30)}]
+        project.apply_edit(st, pre[0])
+        bn = sorted(k_ for k_, e in st["mods"][d]["exports"].items() if e["kind"] == "box" and not e.get("hidden"))
+        if bn:
+            s_ = rnd.randrange(2**30)
+            tail += pre + [{"op": "add_box_ovl_use", "mod": o, "dep": d, "name": bn[0], "seed": s_}, {"op": "toggle_bound", "mod": d, "name": bn[0], "seed": s_}, {"op": "toggle_bound", "mod": d, "name": bn[0], "seed": s_ + 1}]
     for d, n in pairs[:2]:
         tail += [{"op": "toggle_hidden", "mod": d, "name": n, "seed": 1}, {"op": "toggle_hidden", "mod": d, "name": n, "seed": 2}]
     # a local class passed where an imported class is expected gains that class as a base, and loses it again
